@@ -19,13 +19,20 @@ type eterm struct {
 	err     error
 	classes map[string]bool // classes of the classified leaves in the chain ("T","P")
 	mixed   bool            // a non-neutral wrapper / more than one classified leaf
+	typed   bool            // the classified leaf is recognisable by errors.Is / errors.As (not by its text)
 }
 
 func c15Leaves() []eterm {
 	T := map[string]bool{"T": true}
 	P := map[string]bool{"P": true}
 	U := map[string]bool{}
-	mk := func(d string, e error, c map[string]bool) eterm { return eterm{desc: d, err: e, classes: c} }
+	mk := func(d string, e error, c map[string]bool) eterm {
+		// "also when wrapped with %w" is stated for the context errors, TimeoutError and the
+		// library's configuration / permission / missing-bucket errors; for the NATS client's
+		// errors the statement fixes the class of the value the client returns (and of
+		// neutral wrappings), not of arbitrary texts around it
+		return eterm{desc: d, err: e, classes: c, typed: len(c) == 1 && !strings.HasPrefix(d, "errors.New(") && !strings.HasPrefix(d, "nats")}
+	}
 	ls := []eterm{
 		mk("leader.ErrNotLeader", leader.ErrNotLeader, U),
 		mk("leader.ErrAlreadyStarted", leader.ErrAlreadyStarted, U),
@@ -103,6 +110,15 @@ var c15Wrappers = []ewrap{
 	{"ElectionError{Err}", true, func(e error) error { return leader.NewElectionError("HB", "i1", "refresh failed", e) }},
 	{"errors.Join", true, func(e error) error { return errors.Join(e) }},
 	{"TimeoutError{Err}", false, func(e error) error { return leader.NewTimeoutError("op", time.Second, e) }},
+	// wrapper texts that contain pattern words of the other class (a bucket called
+	// "session-timeouts", a group called "invalid-tokens"): a leaf that is recognisable by
+	// type or identity keeps its class "also when wrapped with %w"
+	{"fmt.Errorf(timeout words: %w)", false, func(e error) error {
+		return fmt.Errorf("bucket session-timeouts, deadline exceeded budget: %w", e)
+	}},
+	{"fmt.Errorf(permanent words: %w)", false, func(e error) error {
+		return fmt.Errorf("group invalid-tokens (permission denied earlier): %w", e)
+	}},
 }
 
 func c15Check(c *CheckCtx, t eterm, counts map[string]int) {
@@ -165,7 +181,14 @@ func c15Direct(c *CheckCtx) {
 		var next []eterm
 		for _, t := range level {
 			for _, w := range c15Wrappers {
-				nt := eterm{desc: w.name + " <- " + t.desc, err: w.f(t.err), classes: t.classes, mixed: t.mixed}
+				nt := eterm{desc: w.name + " <- " + t.desc, err: w.f(t.err), classes: t.classes, mixed: t.mixed, typed: t.typed}
+				if strings.HasPrefix(w.name, "fmt.Errorf(") && !w.neutral {
+					if !t.typed || len(t.classes) != 1 {
+						nt.mixed = true
+					}
+					next = append(next, nt)
+					continue
+				}
 				if !w.neutral {
 					// a TimeoutError around a classified-permanent or pattern-bearing
 					// inner error is a mixed chain: only exclusivity/totality apply
@@ -277,7 +300,7 @@ func c15Live(c *CheckCtx) ([]eterm, error) {
 func init() {
 	props["C15"] = &propDef{
 		Level:  "exploration",
-		Rule:   "every error term of the grammar: leaves = nil, 12 package sentinels, context errors, TimeoutError/ValidationError/ElectionError/TokenValidationError values, nats.go exported and API errors, errors.New over a word alphabet containing every pattern of error.go in both cases; wrappers = fmt.Errorf(%w) (two texts), ElectionError, errors.Join, TimeoutError, nested to depth 3, plus sampled two-leaf joins; plus error values captured live from an embedded nats-server through the real adapter. Exclusivity/totality checked on every term; distinct_nontrivial = terms with exactly one classified leaf under neutral wrappers, for which the statement fixes the class",
+		Rule:   "every error term of the grammar: leaves = nil, 12 package sentinels, context errors, TimeoutError/ValidationError/ElectionError/TokenValidationError values, nats.go exported and API errors, errors.New over a word alphabet containing every pattern of error.go in both cases; wrappers = fmt.Errorf(%w) (two neutral texts, one text with transient pattern words, one with permanent pattern words), ElectionError, errors.Join, TimeoutError, nested to depth 3, plus sampled two-leaf joins; plus error values captured live from an embedded nats-server through the real adapter. Exclusivity/totality checked on every term; distinct_nontrivial = terms with exactly one classified leaf under neutral wrappers, for which the statement fixes the class",
 		Assume: []string{"'permission / configuration / missing-bucket' errors are the library's sentinels and ValidationError plus nats.ErrBucketNotFound; texts outside the word alphabet are not enumerated"},
 		Direct: c15Direct,
 	}
